@@ -34,6 +34,13 @@ type scenario struct {
 	SecondAt  int  // passive SUT: position at which a second TCP connection is attempted (-1 none)
 	Cuts      []int
 	Gaps      []time.Duration
+	// faulty configuration: the peer stops reading for Stall right when it transmits (its receive
+	// window closes; the library's responses back up behind a Cap-byte send buffer and a Queue-deep
+	// sender queue), then reads again. Every answer must still arrive, exact and in order.
+	Stall time.Duration
+	Cap   int
+	Queue int
+	T6    time.Duration
 }
 
 type harness struct {
@@ -163,6 +170,17 @@ func genScenario(t *core.Tape, faulty bool) scenario {
 			sc.SecondAt = t.Choose("scn", n+1)
 		}
 	}
+	sc.T6 = 120 * time.Second
+	if faulty {
+		sc.Stall = []time.Duration{50 * time.Millisecond, time.Second, 5 * time.Second, 20 * time.Second}[t.Choose("scn", 4)]
+		sc.Cap = []int{1, 8, 14, 100}[t.Choose("scn", 4)]
+		sc.Queue = []int{0, 1, 2, 8}[t.Choose("scn", 4)]
+		if (!sc.Active || sc.SelectAt == 0) && t.Choose("scn", 2) == 1 {
+			// a short T6 is safe when the library's own Select.req (if any) is answered by the very first
+			// frame of the stream (later ones may legitimately be read only after the stall: back-pressure)
+			sc.T6 = []time.Duration{200 * time.Millisecond, 2 * time.Second}[t.Choose("scn", 2)]
+		}
+	}
 	nc := t.Choose("scn", 7)
 	for i := 0; i < nc; i++ {
 		sc.Cuts = append(sc.Cuts, t.Choose("scn", 1<<16))
@@ -179,7 +197,7 @@ func Build(config string) core.BuildFunc {
 		h.sc = genScenario(w.T, config == "faulty")
 		sc := h.sc
 		sess := sc.Session
-		h.r = rig.New(w, rig.Opts{Active: sc.Active, Equip: sc.Equip, T6: 120 * time.Second, T7: 300 * time.Second, T3: 120 * time.Second,
+		h.r = rig.New(w, rig.Opts{Active: sc.Active, Equip: sc.Equip, T6: sc.T6, T7: 300 * time.Second, T3: 120 * time.Second, QueueSize: sc.Queue,
 			ValidateSession: sc.Validate, SessionID: &sess, T5: time.Second, BackoffInit: 200 * time.Millisecond})
 		r := h.r
 		r.P.AutoSelectRsp = -1
@@ -241,7 +259,8 @@ func (h *harness) describe() map[string]any {
 	}
 
 	return map[string]any{"active": sc.Active, "equip": sc.Equip, "validate": sc.Validate, "session": sc.Session, "frames": classes,
-		"selectAt": sc.SelectAt, "selStatus": sc.SelStatus, "preSelect": sc.PreSelect, "secondAt": sc.SecondAt, "cuts": len(sc.Cuts)}
+		"selectAt": sc.SelectAt, "selStatus": sc.SelStatus, "preSelect": sc.PreSelect, "secondAt": sc.SecondAt, "cuts": len(sc.Cuts),
+		"stall": sc.Stall.String(), "cap": sc.Cap, "queue": sc.Queue, "T6": sc.T6.String()}
 }
 
 // model runs the E37.1 responder model over the actual input list and fills the expectations.
@@ -390,6 +409,11 @@ func (h *harness) transmit() {
 		gaps = append(gaps, g)
 	}
 	h.sentAt = h.w.Now()
+	if sc.Stall > 0 {
+		h.w.Fault("peer-stops-reading")
+		h.c.L.SetCap(sc.Cap)
+		h.c.L.Stall(false, sc.Stall)
+	}
 	h.c.SendRawCut(stream, refhsms.Header{}, nil, true, cuts, gaps)
 	if !sc.Active && sc.SecondAt >= 0 {
 		// second TCP connection while the first session is live
